@@ -137,3 +137,18 @@ Proof. intros A NA. exact (@gen_solve A NA). Qed.
 Theorem C05_source_solver_options : forall (A : Type) (NA : Num A),
   solve_defaults_gen (A:=A) = default_opts /\ forall user, solve_options_gen user = solve_options user.
 Proof. intros A NA. exact (@gen_solve_defaults A NA). Qed.
+
+(* ---- the constraint list solve() hands to the optimiser (and tests in the all-fixed shortcut) for a set node / a multi-flow adaptor,
+        regenerated from DeviceSet.constraints / MFDeviceSet.constraints on every run (Gen/Constraints.v: which bound each per-slot closure
+        reads, default-argument capture vs late binding), IS the model's constraint list gcons. ---- *)
+From DK.Model Require Import ConOps.
+From DK.Gen Require Import Constraints.
+From DK.Proofs Require Import GenConstraints.
+Theorem C05_source_set_constraints : forall {A} `{Num A} {L} (ops : leafops A L) i ks sb, let d := DSet i ks sb in
+  DeviceSet_constraints (map (ckid_of ops) ks) (partition ops d) (rows ops d, dlen ops d) sb = gcons ops d.
+Proof. intros A H L ops i ks sb. apply gen_set_node_constraints. Qed.
+Theorem C05_source_adaptor_constraints : forall {A} `{Num A} {L} (ops : leafops A L) i l flows,
+  let d := MF i l flows in let k := List.length flows in let n := @l_n A L ops l in
+  MFDeviceSet_constraints (DeviceSet_constraints (repeat null_ckid k) (map (fun j => (j, 1%nat)) (seq 0 k)) (k, n) (Some (@l_bounds A L ops l)))
+    (@l_cons A L ops l) (k, n) = gcons ops d.
+Proof. intros A H L ops i l flows. apply gen_mf_node_constraints. Qed.
